@@ -82,8 +82,16 @@ func (g *generator) declareDefinition(schemas openapi3.Schemas) error {
 }
 
 func (g *generator) walkSchemaRef(schemaRef *openapi3.SchemaRef) (ast.Type, error) {
+	if schemaRef == nil {
+		return ast.Type{}, fmt.Errorf("missing schema")
+	}
+
 	if isRef(schemaRef.Ref) {
 		return g.walkRef(schemaRef)
+	}
+
+	if schemaRef.Value == nil {
+		return ast.Type{}, fmt.Errorf("schema without a value")
 	}
 
 	return g.walkDefinitions(schemaRef.Value)
@@ -162,6 +170,11 @@ func (g *generator) walkObject(schema *openapi3.Schema) (ast.Type, error) {
 }
 
 func (g *generator) walkArray(schema *openapi3.Schema) (ast.Type, error) {
+	// `items` is mandatory, but unvalidated documents might not have it
+	if schema.Items == nil {
+		return ast.NewArray(ast.Any(), ast.Default(schema.Default)), nil
+	}
+
 	def, err := g.walkSchemaRef(schema.Items)
 	if err != nil {
 		return ast.Type{}, err
@@ -266,6 +279,14 @@ func (g *generator) walkEnum(schema *openapi3.Schema) (ast.Type, error) {
 		format = "%s"
 	}
 
+	if len(schema.Enum) == 0 {
+		return ast.Type{}, fmt.Errorf("enum with no values")
+	}
+
+	if len(schema.Type.Slice()) == 0 {
+		return ast.Type{}, fmt.Errorf("enum without a type")
+	}
+
 	enumType, err := getEnumType(schema.Type.Slice()[0])
 	if err != nil {
 		return ast.Type{}, err
@@ -283,6 +304,10 @@ func (g *generator) walkEnum(schema *openapi3.Schema) (ast.Type, error) {
 }
 
 func (g *generator) walkDisjunctions(schemaRefs []*openapi3.SchemaRef, discriminator string, mapping map[string]string) (ast.Type, error) {
+	if len(schemaRefs) == 0 {
+		return ast.Type{}, fmt.Errorf("oneOf/anyOf with no branches")
+	}
+
 	typeDefs := make([]ast.Type, 0, len(schemaRefs))
 	for _, schemaRef := range schemaRefs {
 		def, err := g.walkSchemaRef(schemaRef)
